@@ -512,6 +512,8 @@ class Interp:
         h = self.h
         if isinstance(v, tuple) and len(v) == 4 and v[0] == 'record' and isinstance(v[2], tuple) and isinstance(v[3], tuple):
             return list(v[3])           # a namedtuple iterates over its field values
+        if isinstance(v, tuple) and len(v) == 2 and v[0] == 'class' and self.enum_member_refs(v[1]) is not None:
+            return [r_ for _n, r_ in self.enum_member_refs(v[1])]          # an enum class iterates over its members, in definition order
         if isinstance(v, (list, tuple)):
             return list(v)
         if isinstance(v, PyIter):
@@ -579,6 +581,39 @@ class Interp:
                 raise
         return PyIter([], producer)
 
+    def enum_member_refs(self, cname):
+        """[(name, member object)] of an enum class of the module (one object per member for the whole run: `is` and `==` are identity)"""
+        h = self.h
+        if not isinstance(cname, str) or cname not in h.module.classes:
+            return None
+        cache = h.__dict__.setdefault('enum_cache', {})
+        if cname not in cache:
+            home = h.module._home(cname) if hasattr(h.module, '_home') else h.module
+            mem = home.enum_members(cname) if home is not None and hasattr(home, 'enum_members') else None
+            if mem is None:
+                cache[cname] = None
+            else:
+                cache[cname] = [(n_, h.alloc(cname, {'name': n_, 'value': (h.new_list(list(v_)) if isinstance(v_, list) else v_), '_name_': n_, '_value_': v_},
+                                             name='@enum_%s_%s' % (cname, n_))) for n_, v_ in mem]
+        return cache[cname]
+
+    def lazy_iter(self, gen):
+        """an iterator of the model that takes its items from a Python generator, one when one is asked for"""
+        def producer_():
+            for x_ in gen:
+                return (True, x_)
+            return (False, None)
+        return PyIter([], producer_)
+
+    def is_module_logger(self, name):
+        """NAME = logging.getLogger(...) at module level"""
+        h = self.h
+        for mod_ in (h.module.mods if hasattr(h.module, 'mods') else [h.module]):
+            node_ = mod_.const_nodes.get('', {}).get(name)
+            if isinstance(node_, ast.Call) and norm(node_.func) in ('logging.getLogger', 'getLogger'):
+                return True
+        return False
+
     def defaults_now(self, node, env, cls):
         """the default values of a nested function / lambda, computed where it is defined (parameter -> value)"""
         a_ = node.args
@@ -601,6 +636,7 @@ class Interp:
             node = fn.node
             env = dict(fn.env)
             env.pop('#nonlocal', None)
+            env.pop('#comp_outer', None)
             env['#outer'] = fn.env          # (for `nonlocal` stores)
             params = [a.arg for a in node.args.args]
             if isinstance(node, ast.Lambda):
@@ -870,6 +906,9 @@ class Interp:
             if isinstance(base, tuple) and len(base) == 2 and base[0] == 'class' and base[1] in ('str', 'bytes') and base[1] not in h.module.classes \
                     and not e.attr.startswith('_') and callable(getattr(str if base[1] == 'str' else bytes, e.attr, None)):
                 return ('unboundmethod', base[1], e.attr)           # str.isspace, str.lower ... as a value (a key function)
+            if isinstance(base, tuple) and base[0] == 'class' and len(base) == 2 and self.enum_member_refs(base[1]) is not None \
+                    and e.attr in dict(self.enum_member_refs(base[1])):
+                return dict(self.enum_member_refs(base[1]))[e.attr]          # a member of an enum class of the module
             if isinstance(base, tuple) and base[0] == 'class':
                 fn = h.module.method(base[1], e.attr)
                 if fn is None:
@@ -1058,6 +1097,7 @@ class Interp:
             # a comprehension has ONE scope of its own: every round of its loops re-binds the same variables (a function made inside
             # reads them when it is called); the first iterable is computed where the comprehension stands, the rest inside
             scope_ = dict(env)
+            scope_['#comp_outer'] = env
             first_ = self.ev(e.generators[0].iter, env, cls)
 
             def clauses(k):
@@ -1202,6 +1242,14 @@ class Interp:
                 except (ValueError, TypeError):
                     raise Raised('ValueError', h.version, e.lineno)
             return ''.join(out_)
+        if isinstance(e, ast.NamedExpr) and isinstance(e.target, ast.Name):
+            # (name := value): the value, bound in the scope of the enclosing function (from inside a comprehension too)
+            v_ = self.ev(e.value, env, cls)
+            sc_ = env
+            while sc_ is not None:
+                sc_[e.target.id] = v_
+                sc_ = sc_.get('#comp_outer')
+            return v_
         raise AnalysisError('heap model: expression %s' % norm(e)[:60])
 
     def ev_call(self, e, env, cls):
@@ -1272,6 +1320,11 @@ class Interp:
                     kwargs[kk_] = vv_
             else:
                 kwargs[k.arg] = self.ev(k.value, env, cls)
+        if isinstance(fn, ast.Attribute) and isinstance(fn.value, ast.Name) and fn.value.id not in env and norm(fn) not in h.hooks and ('.' + fn.attr) not in h.hooks \
+                and fn.attr in ('debug', 'info', 'warning', 'warn', 'error', 'critical', 'exception', 'log') and self.is_module_logger(fn.value.id):
+            # a call on the module's logging.getLogger(...) object: the arguments have been computed (what they raise is raised); the
+            # record goes to the logging system, the program goes on
+            return None
         if isinstance(fn, ast.Name) and fn.id in ('any', 'all') and fn.id not in env and len(args) == 1:
             for v in self.walk(args[0]):          # stops at the first deciding item
                 if self.truth(v) == (fn.id == 'any'):
@@ -1327,11 +1380,59 @@ class Interp:
             fill_ = kwargs.get('fillvalue')
             n_ = max(len(x_) for x_ in seqs_)
             return [tuple(x_[i_] if i_ < len(x_) else fill_ for x_ in seqs_) for i_ in range(n_)]
-        if norm(fn) in ('itertools.chain', 'chain') and 'chain' not in env:
-            out_ = []
-            for a in args:
-                out_ += self.seq(a)
-            return out_
+        if norm(fn) in ('itertools.chain', 'chain') and 'chain' not in env and not kwargs:
+            # lazy: an argument is walked when the arguments before it are used up (one of them may not end)
+            def chain_(parts_):
+                for a_ in parts_:
+                    yield from self.walk(a_)
+            return self.lazy_iter(chain_(list(args)))
+        if norm(fn) in ('itertools.chain.from_iterable', 'chain.from_iterable') and norm(fn).split('.')[0] not in env and len(args) == 1 and not kwargs:
+            def chain_from_(outer_):
+                for a_ in self.walk(outer_):
+                    yield from self.walk(a_)
+            return self.lazy_iter(chain_from_(args[0]))
+        if norm(fn) in ('itertools.repeat', 'repeat') and norm(fn).split('.')[0] not in env and 1 <= len(args) <= 2 and set(kwargs) <= {'times'}:
+            t_ = args[1] if len(args) == 2 else kwargs.get('times')
+            if t_ is not None and (not isinstance(t_, int) or isinstance(t_, bool)):
+                raise AnalysisError('heap model: repeat(times=%r)' % (t_,))
+            def repeat_(x_, t_=t_):
+                k_ = 0
+                while t_ is None or k_ < t_:
+                    k_ += 1
+                    yield x_
+            return self.lazy_iter(repeat_(args[0]))
+        if norm(fn) in ('itertools.count', 'count') and norm(fn).split('.')[0] not in env and len(args) <= 2 and not kwargs and all(isinstance(a_, int) and not isinstance(a_, bool) for a_ in args):
+            def count_(a_=args[0] if args else 0, b_=args[1] if len(args) == 2 else 1):
+                while True:
+                    yield a_
+                    a_ += b_
+            return self.lazy_iter(count_())
+        if norm(fn) in ('itertools.cycle', 'cycle') and norm(fn).split('.')[0] not in env and len(args) == 1 and not kwargs:
+            def cycle_(src_):
+                saved_ = []
+                for x_ in self.walk(src_):
+                    saved_.append(x_)
+                    yield x_
+                while saved_:
+                    yield from saved_
+            return self.lazy_iter(cycle_(args[0]))
+        if norm(fn) in ('itertools.product', 'product') and norm(fn).split('.')[0] not in env and args and not kwargs:
+            import itertools as _it
+            return self.lazy_iter(iter(list(_it.product(*[self.seq(a_) for a_ in args]))))          # (its arguments are read in full first, as the library does)
+        if norm(fn) in ('itertools.starmap', 'starmap') and norm(fn).split('.')[0] not in env and len(args) == 2 and not kwargs:
+            def starmap_(f_, src_):
+                for x_ in self.walk(src_):
+                    yield self.apply(f_, list(self.seq(x_)))
+            return self.lazy_iter(starmap_(args[0], args[1]))
+        if norm(fn) in ('itertools.accumulate', 'accumulate') and norm(fn).split('.')[0] not in env and len(args) == 1 and not kwargs:
+            def accumulate_(src_):
+                tot_ = None
+                for k_, x_ in enumerate(self.walk(src_)):
+                    if not isinstance(x_, (int, str)) or isinstance(x_, bool):
+                        raise AnalysisError('heap model: accumulate over %r' % (x_,))
+                    tot_ = x_ if k_ == 0 else tot_ + x_
+                    yield tot_
+            return self.lazy_iter(accumulate_(args[0]))
         if norm(fn) in ('collections.deque', 'deque') and norm(fn).split('.')[0] not in env and len(args) <= 1 and set(kwargs) <= {'maxlen'}:
             # a bounded queue fed from an iterable keeps the last maxlen items (read here as a list: indexing, truth, len, iteration)
             items = self.seq(args[0]) if args else []
@@ -1742,7 +1843,21 @@ class Interp:
                 return _struct.calcsize(args[0])
             return self.apply(('structmethod', args[0], fn.attr), args[1:], kwargs)
         if isinstance(fn, ast.Name) and fn.id == 'zip' and 'zip' not in env and 'zip' not in h.hooks and args and not kwargs:
-            return list(zip(*[self.seq(a_) for a_ in args]))        # (eager: the sequences of the model are finite)
+            if any(isinstance(a_, PyIter) or self.obj_iter_possible(a_) for a_ in args):
+                # an iterator among the arguments: one item of each per round, from left to right, until one of them has none (what
+                # the arguments to its left have handed out in that round is gone; an argument that does not end is fine)
+                def zip_(srcs_):
+                    its_ = [self.walk(a_) for a_ in srcs_]
+                    while True:
+                        row_ = []
+                        for i_ in its_:
+                            try:
+                                row_.append(next(i_))
+                            except StopIteration:
+                                return
+                        yield tuple(row_)
+                return self.lazy_iter(zip_(list(args)))
+            return list(zip(*[self.seq(a_) for a_ in args]))        # (sequences: finite)
         if isinstance(fn, ast.Attribute) and fn.attr in ('popleft', 'appendleft', 'extendleft'):
             base = self.ev(fn.value, env, cls)
             if h.is_list(base):
@@ -1839,6 +1954,24 @@ class Interp:
             if init is not None:
                 self.call(Closure(init.node, {}, ref, init.cls), args, kwargs)
             elif h.module.method(fn.id, '__new__') is None:
+                cd_ = h.module.classes[fn.id]
+                if any(norm(b_) in ('NamedTuple', 'typing.NamedTuple') for b_ in cd_.bases):
+                    # class X(NamedTuple) with annotated fields (and defaults): the fields from the arguments
+                    decl_ = [(st_.target.id, st_.value) for st_ in cd_.body if isinstance(st_, ast.AnnAssign) and isinstance(st_.target, ast.Name)]
+                    fields_ = [n_ for n_, _d in decl_]
+                    if any(k_ not in fields_ for k_ in kwargs) or len(args) > len(fields_):
+                        raise Raised('TypeError', h.version, e.lineno)
+                    for i_, (n_, d_) in enumerate(decl_):
+                        if i_ < len(args):
+                            v_ = args[i_]
+                        elif n_ in kwargs:
+                            v_ = kwargs[n_]
+                        elif d_ is not None:
+                            v_ = self.ev(d_, {}, fn.id)
+                        else:
+                            raise Raised('TypeError', h.version, e.lineno)
+                        h.objs[ref.name][n_] = v_
+                    h.objs[ref.name]['#fields'] = tuple(fields_)
                 # class X(collections.namedtuple('X', 'a b')) without constructor of its own: the fields from the arguments
                 for b_ in h.module.classes[fn.id].bases:
                     if isinstance(b_, ast.Call) and norm(b_.func) in ('collections.namedtuple', 'namedtuple') and len(b_.args) == 2:
@@ -1988,6 +2121,8 @@ class Interp:
         """obj.attr = value: through the class's own __setattr__ when it defines one (heap.intercept_setattr), through the setter of a
         property(fget, fset) of the class, else the plain store"""
         h = self.h
+        if ref is None or isinstance(ref, (str, bytes, int, float, bool, tuple, frozenset)):
+            raise Raised('AttributeError', h.version, 0)          # None / a text / a number takes no attribute
         if isinstance(ref, Ref) and h.objs[ref.name]['__class__'] in h.module.classes and not attr.startswith('__'):
             node, c = h.module.class_const_node(h.objs[ref.name]['__class__'], attr)
             if isinstance(node, ast.Call) and norm(node.func) == 'property':
